@@ -131,32 +131,34 @@ theorem one_sample_per_request (R : Run) :
   intro st q ops unit m sched'
   simp [recOf, sampleOf, R.exact]
 
-/-- **service_spans_wire_requests.**  A logical request may consist of several wire requests, grouped in
-    nested request contexts of any depth (composite operations), any of which may fail.  For every sample:
-    the runner call sent at least one wire request; `request_start` is the instant the *first* of them was
-    sent and `request_end` the instant the *last* response was received — the response of a failing wire
-    request included, wherever it sits — so service time is exactly that span (and latency ends there). -/
+/-- **service_spans_wire_requests.**  A logical request may consist of several wire requests: grouped in nested request
+    contexts of any depth, sent from concurrent streams that run as separate asyncio tasks (composite operations), any of
+    them failing.  For every sample: the runner call sent at least one wire request; `request_start` is the instant the
+    *earliest* of them was sent and `request_end` the instant the *latest* response was received — wherever they sit: at the
+    top level, inside a nested context, inside a child task, the response of a failing request included — so service time is
+    exactly that span (and latency ends there); every wire request lies inside the processing span. -/
 theorem service_spans_wire_requests (R : Run) :
-    ∀ rec ∈ R.f.out.recs, ∃ first last,
-      rec.wires.head? = some first ∧ rec.wires.getLast? = some last ∧
+    ∀ rec ∈ R.f.out.recs, ∃ first ∈ rec.wires, ∃ last ∈ rec.wires,
       rec.reqStart = first.1 ∧ rec.reqEnd = last.2 ∧ rec.sample.service = last.2 - first.1 ∧
-      (∀ w ∈ rec.wires, rec.procStart ≤ w.1 ∧ w.1 ≤ w.2 ∧ w.2 ≤ rec.procEnd) := by
+      (∀ w ∈ rec.wires, first.1 ≤ w.1 ∧ w.2 ≤ last.2 ∧ rec.procStart ≤ w.1 ∧ w.1 ≤ w.2 ∧ w.2 ≤ rec.procEnd) := by
   obtain ⟨tp, sched, _, _, _, _, hout, _⟩ := R.inv
   have hr := R.exact
   rw [hout]
   refine go_recs_forall (c := R.c) (fun _ => True) (fun _ => True) _ ?_ R.reqs _ trivial (fun _ _ => trivial)
   intro st q rec st' _ _ _ hs
   obtain ⟨ops, unit, m, sched', _, _, _, hrec, _⟩ := step_sampled_inv hs
-  obtain ⟨first, last, h1, h2, h3, h4⟩ := stamps_span hr st q (step_sampled_stamps hs)
+  obtain ⟨first, hf, last, hl, h3, h4, hall⟩ := stamps_span hr st q (step_sampled_stamps hs)
   subst hrec
-  refine ⟨⟨first, last, h1, h2, h3, h4, by simp [recOf, sampleOf, hr, h3, h4], ?_⟩, trivial⟩
+  refine ⟨⟨first, hf, last, hl, h3, h4, by simp [recOf, sampleOf, hr, h3, h4], ?_⟩, trivial⟩
   intro w hw
   have hb := (progOf_inv hr st q).bounds w hw
-  exact ⟨hb.1, hb.2.1, le_trans hb.2.2 (progNow_le_procEnd hr st q)⟩
+  have := hall w hw
+  exact ⟨this.1, this.2, hb.1, hb.2.1, le_trans hb.2.2 (progNow_le_procEnd hr st q)⟩
 
 /-- **nested_contexts_transparent.**  Clock, endpoint log and the executor's request context after a runner
-    call are those of the same wire requests issued directly in the executor's context: opening and leaving
-    nested request contexts — also by an exception — never loses or shifts a timestamp. -/
+    call are those of the same wire requests and streams issued directly in the executor's context: opening and leaving
+    nested request contexts — also by an exception — never loses or shifts a timestamp.  (Streams: a child task inherits a
+    reference to the context dict, `exitAllInto_eq`: its updates are updates of that dict.) -/
 theorem nested_contexts_transparent (c : Cfg) (hr : ∀ x, c.r x = x) (st : St) (q : Req) :
     reqCtxOf c st q = reqCtxOf c st { q with prog := flat q.prog } ∧
     (progOf c st q).log = (progOf c st { q with prog := flat q.prog }).log ∧
@@ -351,5 +353,23 @@ def demoPages : Run :=
      pagesReq (.tuple 20 pages)] (by decide +kernel)
 example : demoPages.f.out.recs.map (fun r => (r.tup.sched, r.sample.ops, r.sample.success)) =
     [(0, 20, false), (1 / 2, 20, true), (1, 20, true), (3 / 2, 20, true)] := by decide +kernel
+
+/-! ## non-vacuity: wire requests sent from concurrent streams (child asyncio tasks), 1 ops/s: last response inside a stream /
+    first send inside a stream (1.5 s: the client falls behind) / every wire request inside streams -/
+
+def streamReq (prog : List Tok) : Req :=
+  { gen := 0, prog := prog, post := 0, draw := 0, out := compOk, rc := none, rp := none, sp := none }
+
+def demoStreams : Run :=
+  Run.ofInputs { demoCfg with clients := 1, t0 := 0 } (fun _ => rfl) { demoTask with warmupIt := some 0, iters := some 3, clients := 1 }
+    (.int 1) .none 0 1 true 100
+    [streamReq [.enter, .wire 0 (1 / 10) false, .exit, .par [[(2 / 10, false)], [(4 / 10, false)]]],
+     streamReq [.par [[(15 / 10, false)], [(1 / 10, false)]], .enter, .wire 0 (1 / 10) false, .exit],
+     streamReq [.par [[(1 / 10, false), (2 / 10, false)], [(2 / 10, false)]]]] (by decide +kernel)
+
+example : demoStreams.f.out.stop = .loopDone ∧
+    demoStreams.f.out.recs.map (fun r => (r.tup.sched, r.reqStart, r.reqEnd, r.sample.service, r.sample.latency)) =
+      [(0, 0, 1 / 2, 1 / 2, 1 / 2), (1, 1, 13 / 5, 8 / 5, 8 / 5), (2, 13 / 5, 29 / 10, 3 / 10, 9 / 10)] ∧
+    demoStreams.f.out.recs.map (fun r => r.wires.length) = [3, 3, 3] := by decide +kernel
 
 end C04
